@@ -102,7 +102,10 @@ def _revin(ctx):
     cfg = MW.Cfg(rev_in=True, few_vars=["sys_platform", "os_name"], extras=False, release=False)
     run_tree = _run_tree(ctx)
     n = 120 if ctx.tier == "quick" else 1500
+    t0 = ctx.elapsed()
     for _ in range(n):
+        if ctx.elapsed() - t0 > (15 if ctx.tier == "quick" else 60):
+            break
         a, b = MW.gen_pair(rnd, cfg, 5, depth=1)
         if '" in ' not in a + b and '" not in ' not in a + b:
             continue
@@ -127,7 +130,10 @@ def run(ctx):
     rnd = ctx.rnd
     cfg = MW.Cfg(prelit=True, extras=False, few_vars=["os_name"])
     run_tree = _run_tree(ctx)
+    t0 = ctx.elapsed()
     for _ in range(150 if ctx.tier == "quick" else 2500):
+        if ctx.elapsed() - t0 > (15 if ctx.tier == "quick" else 60):
+            break
         run_tree(MM.gen_marker_tree(rnd, cfg, 5))
     MM.clear_caches()
     ctx.stratum = "main"
